@@ -21,7 +21,7 @@ product_id_re = re.compile(
     (?P<observation_direction>[LR])
     (?P<processing_level>1\.0|1\.1|1\.5|3\.1)
     (?P<processing_option>[GR_])
-    (?P<map_projection>[UL_])
+    (?P<map_projection>[UPML_])
     (?P<orbit_direction>[AD])
     """
 )
